@@ -306,11 +306,23 @@ Proof.
   split; [rewrite E; exact S|]. intros _. apply st3_extra. eapply st_mono; [|exact S]. lia.
 Qed.
 
+(** the same for the text of the node itself, without its parentheses *)
+Definition FirstBody (e : expr) : Prop :=
+  forall lay ctx w r, (ctx <= 7)%nat -> wfb w e = true -> cstop ctx e r -> first_ok (body_txt lay ctx e) r.
+
+Lemma first_of_body : forall e, FirstBody e -> FirstOk e.
+Proof.
+  intros e H lay ctx w r Hc W [M Mx]. apply first_wrap. intros B. apply (H lay ctx w r Hc W).
+  split; [|apply Mx; exact B].
+  unfold bare in B. apply andb_true_iff in B as [B1 _]. apply negb_true_iff in B1. apply Nat.ltb_ge in B1.
+  destruct (lvl_le ctx Hc). eapply st_mono; [|exact M]. lia.
+Qed.
+
 Definition FirstQ (e : expr) : Prop :=
-  FirstOk e /\ match e with Sequence fs _ => Forall FirstOk fs | _ => True end.
+  FirstBody e /\ match e with Sequence fs _ => Forall FirstOk fs | _ => True end.
 
 Lemma Forall_FirstQ : forall cs, Forall FirstQ cs -> Forall FirstOk cs.
-Proof. intros cs H. induction H; constructor; auto. destruct H; auto. Qed.
+Proof. intros cs H. induction H; constructor; auto. destruct H. apply first_of_body; auto. Qed.
 
 Lemma forallb_Forall : forall (f : expr -> bool) cs, forallb f cs = true -> Forall (fun x => f x = true) cs.
 Proof. induction cs; cbn; intros; constructor; apply andb_true_iff in H as [? ?]; auto. Qed.
@@ -342,7 +354,7 @@ Theorem first_ok_all : forall e, FirstQ e.
 Proof.
   induction e using expr_ind'; (split; [|try (cbn iota; constructor)]).
   - (* Terminal *)
-    intros lay ctx w r Hc W M. apply first_wrap. intros B. cbn [body_txt].
+    intros lay ctx w r Hc W M. cbn [body_txt].
     cbn [wfb] in W. apply andb_true_iff in W as [W _].
     destruct d as [dd|].
     + apply first_ok_app.
@@ -355,7 +367,7 @@ Proof.
         destruct (post_gap (nl_gap (lay []) 0)) as [|b g]; cbn in S2; [discriminate|].
         destruct b as [wc| |bd]; cbn in S2; try discriminate. destruct wc; discriminate.
       * exists ch, s. cbn [append hd_is] in S1. repeat split; auto.
-    + rewrite app_nil_r_s. destruct M as [_ M]. specialize (M B). destruct M as [_ M]. specialize (M eq_refl).
+    + rewrite app_nil_r_s. destruct M as [_ [_ M]]. specialize (M eq_refl).
       destruct (spelled_first (nl_esc (lay [])) (Nat.leb 6 ctx) t r W M) as (S1 & S2 & S3).
       destruct (pieces_text (spell (nl_esc (lay [])) (Nat.leb 6 ctx) t)) as [|ch s] eqn:E.
       * exfalso. cbn [append] in S1, S2. destruct M as (M1 & M2 & M3).
@@ -367,41 +379,39 @@ Proof.
         { apply ndots_starts3 in M3. cbn [append] in S3. rewrite M3 in S3. discriminate. }
       * exists ch, s. cbn [append hd_is] in S1. repeat split; auto.
   - (* NontermRef *)
-    intros lay ctx w r Hc W M. apply first_wrap. intros B. cbn [body_txt]. apply first_string; vm_compute; reflexivity.
+    intros lay ctx w r Hc W M. cbn [body_txt]. apply first_string; vm_compute; reflexivity.
   - (* Command *)
-    intros lay ctx w r Hc W M. apply first_wrap. intros B. cbn [body_txt]. unfold LBRACE3. cbn [append].
+    intros lay ctx w r Hc W M. cbn [body_txt]. unfold LBRACE3. cbn [append].
     apply first_string; vm_compute; reflexivity.
   - (* Sequence *)
-    intros lay ctx w r Hc W M. apply first_wrap. intros B. cbn [body_txt].
+    intros lay ctx w r Hc W M. cbn [body_txt].
     cbn [wfb] in W. apply andb_true_iff in W as [W1 W2]. apply Nat.leb_le in W1.
-    unfold bare in B. apply andb_true_iff in B as [B1 _]. apply negb_true_iff in B1. apply Nat.ltb_ge in B1.
-    cbn [prec] in B1. destruct M as [M _]. destruct (lvl_le ctx Hc).
+    destruct M as [M _]. cbn [prec] in M.
     apply (first_nary 3 seq_sep lay w cs r); auto; try lia.
     + intros. apply seq_sep_st3; auto.
     + apply Forall_FirstQ; auto.
     + eapply st_mono; [|exact M]. lia.
   - apply Forall_FirstQ; auto.
   - (* Alternative *)
-    intros lay ctx w r Hc W M. apply first_wrap. intros B. cbn [body_txt].
+    intros lay ctx w r Hc W M. cbn [body_txt].
     cbn [wfb] in W. apply andb_true_iff in W as [W1 W2]. apply Nat.leb_le in W1.
-    unfold bare in B. apply andb_true_iff in B as [B1 _]. apply negb_true_iff in B1. apply Nat.ltb_ge in B1.
-    cbn [prec] in B1. destruct M as [M _]. destruct (lvl_le ctx Hc).
+    destruct M as [M _]. cbn [prec] in M.
     apply (first_nary 2 alt_sep lay w cs r); auto; try lia.
     + intros. apply alt_sep_st2; auto.
     + apply Forall_FirstQ; auto.
     + eapply st_mono; [|exact M]. lia.
   - (* Optional *)
-    intros lay ctx w r Hc W M. apply first_wrap. intros B. cbn [body_txt]. apply first_string; vm_compute; reflexivity.
+    intros lay ctx w r Hc W M. cbn [body_txt]. apply first_string; vm_compute; reflexivity.
   - (* Many1 *)
-    intros lay ctx w r Hc W M. apply first_wrap. intros B. cbn [body_txt]. apply first_ok_app.
+    intros lay ctx w r Hc W M. cbn [body_txt]. apply first_ok_app.
     rewrite app_assoc_s.
-    destruct IHe as [IH _]. cbn [wfb] in W. apply (IH _ 6%nat w); [lia | exact W |].
+    destruct IHe as [IH _]. apply first_of_body in IH. cbn [wfb] in W. apply (IH _ 6%nat w); [lia | exact W |].
     split; [repeat split; intros; cbn [lvl Nat.eqb] in *; lia|].
     intros _. destruct (many_rest (nl_gap (lay []) 0) r) as [Q1 Q2]. split; intros _; auto.
   - (* DistDescr *)
-    intros lay ctx w r Hc W M. apply first_wrap. intros B. cbn [body_txt]. apply first_ok_app.
+    intros lay ctx w r Hc W M. cbn [body_txt]. apply first_ok_app.
     rewrite app_assoc_s.
-    destruct IHe as [IH _]. cbn [wfb] in W.
+    destruct IHe as [IH _]. apply first_of_body in IH. cbn [wfb] in W.
     destruct (open_end e) eqn:O.
     + apply (IH _ 7%nat w); [lia | exact W |]. split; [apply st4_descr|].
       intros B'. unfold bare in B'. apply andb_true_iff in B' as [B' _]. apply negb_true_iff in B'.
@@ -410,24 +420,21 @@ Proof.
       intros _. split; intros X; [rewrite O in X; discriminate|].
       destruct e; try discriminate. destruct descr; discriminate.
   - (* Fallback *)
-    intros lay ctx w r Hc W M. apply first_wrap. intros B. cbn [body_txt].
+    intros lay ctx w r Hc W M. cbn [body_txt].
     cbn [wfb] in W. apply andb_true_iff in W as [W1 W2]. apply Nat.leb_le in W1.
-    unfold bare in B. apply andb_true_iff in B as [B1 _]. apply negb_true_iff in B1. apply Nat.ltb_ge in B1.
-    cbn [prec] in B1. destruct M as [M _]. destruct (lvl_le ctx Hc).
+    destruct M as [M _]. cbn [prec] in M.
     apply (first_nary 1 fb_sep lay w cs r); auto; try lia.
     + intros. apply fb_sep_st1; auto.
     + apply Forall_FirstQ; auto.
     + eapply st_mono; [|exact M]. lia.
   - (* Subword *)
-    intros lay ctx w r Hc W M. apply first_wrap. intros B.
+    intros lay ctx w r Hc W M.
     cbn [wfb] in W. apply andb_true_iff in W as [W W3]. apply andb_true_iff in W as [Ww Wl].
     destruct e; try discriminate. cbn [body_txt].
     apply andb_true_iff in W3 as [W3 Wadj]. apply andb_true_iff in W3 as [Wlen Wfs]. apply Nat.leb_le in Wlen.
     destruct IHe as [_ IHfs].
-    destruct M as [M Mx]. specialize (Mx B). destruct Mx as [Mx _].
-    unfold bare in B. apply andb_true_iff in B as [B1 _]. apply negb_true_iff in B1. apply Nat.ltb_ge in B1.
-    cbn [prec] in B1. destruct (lvl_le ctx Hc).
-    assert (S4 : st 4 r) by (eapply st_mono; [|exact M]; lia).
+    destruct M as [M [Mx _]]. cbn [prec] in M.
+    assert (S4 : st 4 r) by exact M.
     destruct children as [|x xs]; [cbn in Wlen; lia|].
     apply first_list.
     inversion IHfs as [|? ? Fx Fxs]; subst.
@@ -456,3 +463,9 @@ Proof.
     + intros O. apply Lk0. apply open_end_inword; auto.
     + intros Pl. apply Lk0. exact Pl.
 Qed.
+
+Theorem first_ok_any : forall e, FirstOk e.
+Proof. intros. apply first_of_body. apply first_ok_all. Qed.
+
+Theorem first_body_any : forall e, FirstBody e.
+Proof. intros. apply first_ok_all. Qed.
